@@ -1286,6 +1286,28 @@ package yang
 //@   modifies l.pos, l.width, l.line, l.col, l.tcol
 //@   safe
 //
+// updateCursor moves the cursor over n bytes in one step (a comment, a
+// single-quoted string). Every character of the skipped text moves the
+// tab-expanded column -- the one the indentation stripping of the next
+// multi-line string goes by -- exactly as next moves it (tcolStep: a line feed
+// resets it, a tab goes to the next multiple of 8, any other character,
+// multi-byte ones included, counts one), and the walk takes the characters as
+// utf8 decodes them, one after the other; line and column are counted in
+// characters (strings.Count / LastIndex / utf8.RuneCountInString as abstract
+// functions of the skipped text).
+//@ spec tcolStep(t int, r int) int = r == '\n' ? 0 : (r == '\t' ? (t + 8) - (t + 8) % 8 : t + 1)
+//@ func (*lexer).updateCursor props C16 C02
+//@   requires lexOK(l) && lexSmall(l) && 0 <= n && l.pos + n <= len(l.input) && len(l.input) < 281474976710656   -- (an input of 2^48 bytes cannot exist: no counter wraps)
+//@   ensures  l.pos == old(l.pos) + n && l.width == n && l.input == old(l.input)
+//@   ensures[lines-are-counted-by-line-feeds-and-the-column-in-characters-after-the-last] l.line == old(l.line) + subCount(old(l.input)[old(l.pos):old(l.pos)+n], "\n")
+//@            && l.col == (subCount(old(l.input)[old(l.pos):old(l.pos)+n], "\n") > 0 ? 0 : old(l.col)) + runeCount(old(l.input)[old(l.pos):old(l.pos)+n][lastIdx(old(l.input)[old(l.pos):old(l.pos)+n], "\n")+1:])
+//@   modifies l.pos, l.width, l.line, l.col, l.tcol
+//@   safe
+//@   loop 1
+//@     modifies l.tcol
+//@     invariant 0 <= rangepos() && rangepos() <= len(s) && 0 <= l.tcol && l.tcol <= old(l.tcol) + 8 * rangepos()
+//@     body_ensures[every-character-moves-the-tab-expanded-column-as-next-does] l.tcol == tcolStep(old(l.tcol), decRune(s[old(rangepos()):])) && rangepos() == old(rangepos()) + decWidth(s[old(rangepos()):])
+//
 // backup undoes the last next (except that after backing up over a line break
 // the column is 0: the line break is read again next and resets it anyway).
 //@ func (*lexer).backup props C16 C02 C01
